@@ -68,4 +68,382 @@ theorem pend_nonempty_of_writing {s : State} {t : Task} (I : Inv s t) {v u} (h :
   obtain ⟨b, hb, hw⟩ := I.writingB v u h
   simp [pend, openW, hb, hw]
 
+
+
+theorem step_begin {s s' : State} {t : Task} {i out} (I : Inv s t) (h : fire s (.begin i) = some (s', out)) :
+    ∃ t', Inv s' t' := by
+  simp only [fire, getTask_single I.tasks] at h
+  split at h <;> try (simp at h)
+  rename_i heq
+  split at heq <;> simp at heq
+  subst heq
+  obtain ⟨rfl, rfl⟩ := h
+  refine ⟨⟨.idle, some ⟨s.nextEpoch, none⟩⟩, ?_⟩
+  have I' := I
+  obtain ⟨h1, h2, h3, h4, h5, h6, h7, h8, h9, h10, h11⟩ := I
+  constructor <;> simp_all [setTask, pend, openW, adj, isWriting]
+
+
+
+theorem step_put {s s' : State} {t : Task} {i v out} (I : Inv s t) (h : fire s (.put i v) = some (s', out)) :
+    ∃ t', Inv s' t' := by
+  simp only [fire, getTask_single I.tasks] at h
+  split at h <;> try (simp at h)
+  rename_i b heq
+  split at heq <;> simp at heq
+  subst heq
+  obtain ⟨rfl, rfl⟩ := h
+  refine ⟨⟨.writing v b.write.isNone, some { b with write := some v }⟩, ?_⟩
+  obtain ⟨h1, h2, h3, h4, h5, h6, h7, h8, h9, h10, h11⟩ := I
+  cases hw : b.write <;>
+  constructor <;> simp_all [setTask, pend, openW, adj, isWriting] <;> grind
+
+
+
+theorem step_cacheWrite {s s' : State} {t : Task} {i out} (I : Inv s t) (h : fire s (.cacheWrite i) = some (s', out)) :
+    ∃ t', Inv s' t' := by
+  simp only [fire, getTask_single I.tasks] at h
+  split at h <;> try (simp at h)
+  rename_i v u ob heq
+  split at heq <;> simp at heq
+  subst heq
+  obtain ⟨rfl, rfl⟩ := h
+  refine ⟨⟨.idle, ob⟩, ?_⟩
+  have hne := pend_nonempty_of_writing I (v := v) (u := u) rfl
+  obtain ⟨h1, h2, h3, h4, h5, h6, h7, h8, h9, h10, h11⟩ := I
+  obtain ⟨b, hb, hw⟩ := h6 v u rfl
+  cases hent : s.entry <;> cases v <;> cases u <;>
+  constructor <;> simp_all [setTask, pend, openW, adj, isWriting, cacheWriteEntry] <;> grind
+
+
+
+theorem step_submit {s s' : State} {t : Task} {i out} (I : Inv s t) (h : fire s (.submit i) = some (s', out)) :
+    ∃ t', Inv s' t' := by
+  simp only [fire, getTask_single I.tasks] at h
+  split at h <;> try (simp at h)
+  rename_i b heq
+  split at heq <;> simp at heq
+  subst heq
+  obtain ⟨rfl, rfl⟩ := h
+  refine ⟨⟨.idle, none⟩, ?_⟩
+  obtain ⟨h1, h2, h3, h4, h5, h6, h7, h8, h9, h10, h11⟩ := I
+  cases hw : b.write <;>
+  constructor <;> simp_all [setTask, pend, openW, adj, isWriting, List.range'_concat] <;> grind
+
+theorem step_probe {s s' : State} {t : Task} {i out} (I : Inv s t) (h : fire s (.probe i) = some (s', out)) :
+    (∃ t', Inv s' t') ∧ (∀ r, out = some r → r = s.latest) := by
+  simp only [fire, getTask_single I.tasks] at h
+  by_cases hi : i = 0
+  · subst hi
+    obtain ⟨pc, ob⟩ := t
+    simp only [if_true] at h
+    by_cases hpc : pc = .idle ∨ pc = .loop
+    · simp only [hpc, if_true] at h
+      obtain ⟨h1, h2, h3, h4, h5, h6, h7, h8, h9, h10, h11⟩ := I
+      cases he : s.entry with
+      | some e =>
+          simp [he] at h
+          obtain ⟨rfl, rfl⟩ := h
+          refine ⟨⟨⟨.idle, ob⟩, ?_⟩, ?_⟩
+          · rcases hpc with rfl | rfl <;>
+            constructor <;> simp_all [setTask, pend, openW, adj, isWriting]
+          · rcases hpc with rfl | rfl <;> simp_all [isWriting]
+      | none =>
+          simp [he] at h
+          obtain ⟨rfl, rfl⟩ := h
+          refine ⟨⟨⟨.probed, ob⟩, ?_⟩, by simp⟩
+          rcases hpc with rfl | rfl <;>
+          constructor <;> simp_all [setTask, pend, openW, adj, isWriting]
+    · simp [hpc] at h
+  · simp [hi] at h
+
+
+
+theorem step_sfEnter {s s' : State} {t : Task} {i out} (I : Inv s t) (h : fire s (.sfEnter i) = some (s', out)) :
+    ∃ t', Inv s' t' := by
+  simp only [fire, getTask_single I.tasks] at h
+  by_cases hi : i = 0
+  · subst hi
+    obtain ⟨pc, ob⟩ := t
+    obtain ⟨h1, h2, h3, h4, h5, h6, h7, h8, h9, h10, h11⟩ := I
+    cases pc <;> simp at h
+    cases hsf : s.sf <;> simp [hsf] at h <;> obtain ⟨rfl, rfl⟩ := h
+    · refine ⟨⟨.working, ob⟩, ?_⟩
+      constructor <;> simp_all [setTask, pend, openW, adj, isWriting]
+    · refine ⟨⟨.waiting, ob⟩, ?_⟩
+      constructor <;> simp_all [setTask, pend, openW, adj, isWriting]
+  · simp [hi] at h
+
+theorem step_sfWake {s s' : State} {t : Task} {i out} (I : Inv s t) (h : fire s (.sfWake i) = some (s', out)) :
+    ∃ t', Inv s' t' := by
+  simp only [fire, getTask_single I.tasks] at h
+  by_cases hi : i = 0
+  · subst hi
+    obtain ⟨pc, ob⟩ := t
+    obtain ⟨h1, h2, h3, h4, h5, h6, h7, h8, h9, h10, h11⟩ := I
+    cases pc <;> simp at h
+    obtain ⟨rfl, rfl⟩ := h
+    refine ⟨⟨.loop, ob⟩, ?_⟩
+    constructor <;> simp_all [setTask, pend, openW, adj, isWriting]
+  · simp [hi] at h
+
+theorem step_readDb {s s' : State} {t : Task} {i out} (I : Inv s t) (h : fire s (.readDb i) = some (s', out)) :
+    ∃ t', Inv s' t' := by
+  simp only [fire, getTask_single I.tasks] at h
+  by_cases hi : i = 0
+  · subst hi
+    obtain ⟨pc, ob⟩ := t
+    obtain ⟨h1, h2, h3, h4, h5, h6, h7, h8, h9, h10, h11⟩ := I
+    cases pc <;> simp at h
+    obtain ⟨rfl, rfl⟩ := h
+    refine ⟨⟨.read s.db, ob⟩, ?_⟩
+    constructor <;> simp_all [setTask, pend, openW, adj, isWriting]
+  · simp [hi] at h
+
+theorem step_sfLeave {s s' : State} {t : Task} {i out} (I : Inv s t) (h : fire s (.sfLeave i) = some (s', out)) :
+    ∃ t', Inv s' t' := by
+  simp only [fire, getTask_single I.tasks] at h
+  by_cases hi : i = 0
+  · subst hi
+    obtain ⟨pc, ob⟩ := t
+    obtain ⟨h1, h2, h3, h4, h5, h6, h7, h8, h9, h10, h11⟩ := I
+    cases pc <;> simp at h
+    obtain ⟨rfl, rfl⟩ := h
+    refine ⟨⟨.loop, ob⟩, ?_⟩
+    constructor <;> simp_all [setTask, pend, openW, adj, isWriting]
+  · simp [hi] at h
+
+theorem step_fill {s s' : State} {t : Task} {i out} (I : Inv s t) (h : fire s (.fill i) = some (s', out)) :
+    ∃ t', Inv s' t' := by
+  simp only [fire, getTask_single I.tasks] at h
+  by_cases hi : i = 0
+  · subst hi
+    obtain ⟨pc, ob⟩ := t
+    obtain ⟨h1, h2, h3, h4, h5, h6, h7, h8, h9, h10, h11⟩ := I
+    cases pc <;> simp at h
+    rename_i v
+    obtain ⟨rfl, rfl⟩ := h
+    refine ⟨⟨.filled, ob⟩, ?_⟩
+    have hnone : s.entry = none := h10 (Or.inr (Or.inr ⟨v, rfl⟩))
+    have hv := h11 v rfl
+    have hz := h9 hnone
+    have hlen : (pend s ⟨.read v, ob⟩).length = 0 := by simp [adj] at hz; omega
+    have hp : pend s ⟨.read v, ob⟩ = [] := List.eq_nil_of_length_eq_zero hlen
+    have hl : s.latest = s.db := by have := h5 rfl; simpa [hp] using this
+    have e1 : ∀ x, pend ({ setTask s 0 ⟨.filled, ob⟩ with entry := x }) ⟨.filled, ob⟩ = pend s ⟨.read v, ob⟩ := fun _ => rfl
+    subst hv
+    simp only [hnone]
+    constructor
+    · simp [setTask, h1]
+    · exact h2
+    · exact h3
+    · exact h4
+    · intro _; show s.latest = _; rw [e1, hp]; simpa [setTask] using hl
+    · intro v u hh; simp at hh
+    · intro _ e he; simp at he; subst he; simp [hl, setTask]
+    · intro e he; simp at he; subst he; rw [e1, hp]; simp [adj, hp] at hz; simp [adj, setTask]; omega
+    · intro hh; simp at hh
+    · intro hh; simp at hh
+    · intro v hh; simp at hh
+  · simp [hi] at h
+
+
+
+theorem adj_le_pend {s : State} {t : Task} (I : Inv s t) : adj t.pc ≤ ((pend s t).length : Int) := by
+  obtain ⟨pc, ob⟩ := t
+  cases pc <;> simp [adj] <;> try omega
+  rename_i v u
+  cases u <;> simp
+  have := pend_nonempty_of_writing I (v := v) (u := true) rfl
+  omega
+
+theorem step_notify {s s' : State} {t : Task} {out} (I : Inv s t) (h : fire s .notify = some (s', out)) :
+    ∃ t', Inv s' t' := by
+  simp only [fire] at h
+  by_cases ht : s.tokens = 0
+  · simp [ht] at h
+  · simp [ht] at h
+    obtain ⟨rfl, rfl⟩ := h
+    refine ⟨t, ?_⟩
+    have hadj := adj_le_pend I
+    obtain ⟨h1, h2, h3, h4, h5, h6, h7, h8, h9, h10, h11⟩ := I
+    cases he : s.entry with
+    | none => have := h9 he; omega
+    | some e =>
+        have hp := h8 e he
+        constructor
+        · exact h1
+        · exact h2
+        · exact h3
+        · exact h4
+        · exact h5
+        · exact h6
+        · intro hw e' he'; simp [notifyEntry] at he'; subst he'; exact h7 hw e he
+        · intro e' he'; simp [notifyEntry] at he'; subst he'
+          show e.pin - 1 = ((pend s t).length : Int) + ((s.tokens - 1 : Nat) : Int) - adj t.pc
+          omega
+        · intro hh; simp [notifyEntry] at hh
+        · intro hh; have := h10 hh; simp [he] at this
+        · exact h11
+
+theorem step_evict {s s' : State} {t : Task} {out} (I : Inv s t) (h : fire s .evict = some (s', out)) :
+    ∃ t', Inv s' t' := by
+  simp only [fire] at h
+  cases he : s.entry with
+  | none => simp [he] at h
+  | some e =>
+    simp [he] at h
+    obtain ⟨hpin, rfl, rfl⟩ := h
+    refine ⟨t, ?_⟩
+    have hadj := adj_le_pend I
+    obtain ⟨h1, h2, h3, h4, h5, h6, h7, h8, h9, h10, h11⟩ := I
+    have hp := h8 e he
+    constructor
+    · exact h1
+    · exact h2
+    · exact h3
+    · exact h4
+    · exact h5
+    · exact h6
+    · intro _ e' he'; simp at he'
+    · intro e' he'; simp at he'
+    · intro _
+      show ((pend s t).length : Int) + s.tokens - adj t.pc = 0
+      omega
+    · intro _; rfl
+    · exact h11
+
+theorem step_commit {s s' : State} {t : Task} {out} (I : Inv s t) (h : fire s .commit = some (s', out)) :
+    ∃ t', Inv s' t' := by
+  simp only [fire] at h
+  rw [find_expected I.epochs] at h
+  cases hs : s.submitted with
+  | nil => simp [hs] at h
+  | cons b rest =>
+    simp [hs] at h
+    obtain ⟨rfl, rfl⟩ := h
+    refine ⟨t, ?_⟩
+    have hadj := adj_le_pend I
+    obtain ⟨h1, h2, h3, h4, h5, h6, h7, h8, h9, h10, h11⟩ := I
+    rw [hs] at h2
+    simp [List.range'] at h2
+    obtain ⟨hbe, hrest⟩ := h2
+    obtain ⟨P, hP⟩ : ∃ P, P = rest.filterMap (·.write) ++ openW t := ⟨_, rfl⟩
+    have hpend : pend s t = b.write.toList ++ P := by
+      simp [pend, hs, List.filterMap_cons, hP]; cases b.write <;> simp
+    have hpend' : ∀ (d : Option Nat) (k : Nat), pend { s with submitted := rest, db := d, tokens := k, expected := s.expected + 1 } t = P := by
+      intro d k; simp [pend, hP]
+    constructor
+    · exact h1
+    · simpa using hrest
+    · intro b' hb'; have := h3 b' hb'; simp [hs] at this ⊢; omega
+    · intro hn; have := h4 hn; simp [hs] at this ⊢; omega
+    · intro hw
+      have := h5 hw
+      rw [hpend'] 
+      show s.latest = (P.getLast?).getD _
+      rw [this, hpend]
+      cases hbw : b.write with
+      | none => simp
+      | some w =>
+          cases P with
+          | nil => simp
+          | cons x xs =>
+              have : ∀ d : Option Nat, ((x :: xs).getLast?).getD d = (x :: xs).getLast (by simp) := by
+                intro d; rw [List.getLast?_eq_some_getLast (by simp)]; rfl
+              simp [List.getLast?_cons_cons, this]
+    · exact h6
+    · exact h7
+    · intro e he
+      have := h8 e he
+      rw [hpend']
+      show e.pin = ((P.length : Nat) : Int) + ((if b.write.isSome then s.tokens + 1 else s.tokens : Nat) : Int) - adj t.pc
+      rw [this, hpend]
+      cases hbw : b.write <;> simp <;> omega
+    · intro he
+      have := h9 he
+      rw [hpend']
+      show ((P.length : Nat) : Int) + ((if b.write.isSome then s.tokens + 1 else s.tokens : Nat) : Int) - adj t.pc = 0
+      rw [hpend] at this
+      cases hbw : b.write <;> simp [hbw] at this ⊢ <;> omega
+    · exact h10
+    · intro v hv
+      have hv' := h11 v hv
+      have hnone := h10 (Or.inr (Or.inr ⟨v, hv⟩))
+      have hz := h9 hnone
+      have : b.write = none := by
+        rw [hpend] at hz hadj
+        cases hb : b.write with
+        | none => rfl
+        | some w =>
+            have hadj0 : adj t.pc = 0 := by rw [hv]; rfl
+            simp [hb, hadj0] at hz; omega
+      simp [this, hv']
+
+
+/-- every step preserves the invariant; a probe that returns a value returns `latest` -/
+theorem inv_step {s s' : State} {t : Task} {e : Ev} {out} (I : Inv s t) (h : fire s e = some (s', out)) :
+    (∃ t', Inv s' t') ∧ (∀ r, out = some r → r = s.latest) := by
+  have noOut : ∀ {e}, fire s e = some (s', out) → (∀ i, e ≠ .probe i) → ∀ r, out = some r → r = s.latest := by
+    intro e h hne r hr
+    subst hr
+    exfalso
+    cases e <;> simp only [fire] at h <;> (try exact hne _ rfl) <;>
+      (repeat' (split at h)) <;> simp at h
+  cases e with
+  | begin i => exact ⟨step_begin I h, noOut h (by simp)⟩
+  | put i v => exact ⟨step_put I h, noOut h (by simp)⟩
+  | cacheWrite i => exact ⟨step_cacheWrite I h, noOut h (by simp)⟩
+  | submit i => exact ⟨step_submit I h, noOut h (by simp)⟩
+  | probe i => exact step_probe I h
+  | sfEnter i => exact ⟨step_sfEnter I h, noOut h (by simp)⟩
+  | sfWake i => exact ⟨step_sfWake I h, noOut h (by simp)⟩
+  | readDb i => exact ⟨step_readDb I h, noOut h (by simp)⟩
+  | fill i => exact ⟨step_fill I h, noOut h (by simp)⟩
+  | sfLeave i => exact ⟨step_sfLeave I h, noOut h (by simp)⟩
+  | commit => exact ⟨step_commit I h, noOut h (by simp)⟩
+  | notify => exact ⟨step_notify I h, noOut h (by simp)⟩
+  | evict => exact ⟨step_evict I h, noOut h (by simp)⟩
+
+theorem inv_reach {db0 : Option Nat} {s : State} (h : Reach (init db0 1) s) : ∃ t, Inv s t := by
+  induction h with
+  | init => exact ⟨_, inv_init db0⟩
+  | step _ hf ih => obtain ⟨t, I⟩ := ih; exact (inv_step I hf).1
+
+/-- all outputs of a run from a state satisfying the invariant are `latest` at the moment they are returned -/
+theorem run_outputs {s : State} {t : Task} (I : Inv s t) :
+    ∀ {sched : List Ev} {s' outs}, run s sched = some (s', outs) → ∀ p ∈ outs, p.1 = p.2 := by
+  intro sched
+  induction sched generalizing s t with
+  | nil => intro s' outs h; simp [run] at h; obtain ⟨_, rfl⟩ := h; simp
+  | cons e es ih =>
+      intro s' outs h
+      simp only [run] at h
+      cases hf : fire s e with
+      | none => simp [hf] at h
+      | some r =>
+          obtain ⟨s1, out⟩ := r
+          simp only [hf] at h
+          obtain ⟨⟨t1, I1⟩, hout⟩ := inv_step I hf
+          cases hr : run s1 es with
+          | none => simp [hr] at h
+          | some r2 =>
+              obtain ⟨s2, outs2⟩ := r2
+              simp only [hr] at h
+              have ih' := ih I1 hr
+              have hlat : ∀ r, out = some r → s1.latest = s.latest := by
+                intro r hr'
+                subst hr'
+                cases e <;> simp only [fire] at hf <;> (repeat' (split at hf)) <;> simp at hf <;>
+                  (try (obtain ⟨rfl, _⟩ := hf; rfl)) <;> (try (obtain ⟨_, rfl, _⟩ := hf; rfl))
+              cases out with
+              | none => simp at h; obtain ⟨_, rfl⟩ := h; exact ih'
+              | some r =>
+                  simp at h; obtain ⟨_, rfl⟩ := h
+                  intro p hp
+                  simp at hp
+                  rcases hp with rfl | hp
+                  · simp [hout r rfl, hlat r rfl]
+                  · exact ih' p hp
+
 end QbiceVerif.WideCache
